@@ -50,13 +50,15 @@ const c05CrossChainPolicyOffIsViolation = true
 func init() {
 	kit.Register(&kit.Spec{
 		ID:      "C05",
-		Rule:    "A: generated TransferAsset transactions whose references name 1..4 addresses drawn from {standard, m-of-n multisig n<=7, multisig code under standard/deposit prefix, deposit-standard, Schnorr aggregate of 1..4 keys, cross-chain m-of-n}, optionally one more address through a Script attribute; witnesses signed with real P-256 keys over the unsigned bytes, then exactly one adversarial variant (see counter names variant:*) applied to one address/program; each case is evaluated by RunPrograms (positional) and by the context check's signature step (sorted). B: the same variants on transactions that spend real UTXOs of a live regnet node through the mempool and blocks. distinct = distinct (variant, address kinds, unsigned bytes); non-trivial = a witness with at least one genuine signature reached RunPrograms (no length/count shortcut)",
-		Shards:  func(tier string) int { return 8 },
+		Rule:    "A: generated TransferAsset transactions whose references name 1..4 addresses drawn from {standard, m-of-n multisig n<=7, multisig code under standard/deposit prefix, deposit-standard, Schnorr aggregate of 1..4 keys, cross-chain m-of-n}, optionally one more address through a Script attribute; witnesses signed with real P-256 keys over the unsigned bytes, then exactly one adversarial variant (see counter names variant:*) applied to one address/program; each case is evaluated by RunPrograms (positional) and by the context check's signature step (sorted). B: the same variants on transactions that spend real UTXOs of a live regnet node through the mempool and blocks. distinct = distinct (variant, address kinds, unsigned bytes); non-trivial = a witness with at least one genuine signature reached RunPrograms (no length/count shortcut). X (c05_exempt.go, shards 8..): on live dpos-era / dposv2-era nodes, every transaction type whose validation can end before checkTransactionSignature has seen all inputs (enumerated at run time on the real functions: VotesRealWithdraw, DposV2ClaimRewardRealWithdraw, CRCProposalRealWithdraw, CRCAppropriation, CRAssetsRectify, CRCProposalWithdraw v0, ActivateProducer of an inactive CR council member) gets the honest instance (node-generated where the node generates it) and crafted variants that add or substitute a third party's ordinary UTXO with no / a foreign program, through AppendToTxPool and through a hand-assembled arbiter-confirmed block; RevertToDPOS and UpdateVersion (no inputs, authorised by an m-of-n arbiter program) get forged program signatures; a case = one (type, variant, mempool|block) submission, non-trivial = it reached the validators",
+		Shards:  func(tier string) int { return c05BaseShards + c05ExemptShards(tier) },
 		Run:     runC05,
-		Require: []string{"A_positional_calls", "A_sorted_calls", "A_impl_accept", "A_impl_reject", "A_honest_accepted", "A_model_accept", "A_model_reject", "A_reject_agree", "kind:standard", "kind:multisig", "kind:schnorr", "kind:crosschain", "kind:deposit-standard", "variant:data-flip", "variant:same-key-multi-slot", "variant:same-sig-repeated", "variant:dup-key-script", "variant:prefix-swap", "variant:nonmember-sig", "B_submissions", "B_honest_accepted", "B_rejected_at_signature_step", "B_mined_spends", "model_ecdsa_cross_checks"},
+		Require: append([]string{"A_positional_calls", "A_sorted_calls", "A_impl_accept", "A_impl_reject", "A_honest_accepted", "A_model_accept", "A_model_reject", "A_reject_agree", "kind:standard", "kind:multisig", "kind:schnorr", "kind:crosschain", "kind:deposit-standard", "variant:data-flip", "variant:same-key-multi-slot", "variant:same-sig-repeated", "variant:dup-key-script", "variant:prefix-swap", "variant:nonmember-sig", "B_submissions", "B_honest_accepted", "B_rejected_at_signature_step", "B_mined_spends", "model_ecdsa_cross_checks"}, c05xRequire...),
 		Assumptions: []string{"Go standard library crypto/ecdsa, crypto/elliptic, crypto/sha256 and x/crypto/ripemd160 are correct",
 			"cross-chain (X) addresses: by the node's documented design (test/unit TestRunProgramsAllowsDynamicCrossChainWitness) the witness script is not bound to the address by hash; the model demands only m-of-n there and the live-node part checks the transaction-type policy instead",
-			"a panic inside the validation call is counted and treated as a rejection (panic freedom is property C03)"},
+			"a panic inside the validation call is counted and treated as a rejection (panic freedom is property C03)",
+			"part X: outputs owned by the protocol address a type is designed to spend (stake pool, DPoS v2 reward accumulate address, CR expenses, CR assets: no key exists for them) need no program; the list is in c05_exempt.go with the code that justifies each entry. Which types can skip the signature step via SpecialContextCheck end=true is read from core/transaction (the run-time enumeration confirms the checkTransactionSignature exemptions and which types refuse inputs, and makes the run inconclusive when they change)",
+			"part X: compressed-era regnet schedules of kit/node/eras.go with CR DutyPeriod=400; the cr script additionally sets MinCRAssetsAddressUTXOCount=2 and moves CRCProposalWithdrawPayloadV1Height 13 blocks up so that the legacy v0 withdraw is reachable; CRAssetsRectify's honest instance comes from blockchain.CreateCRAssetsRectifyTransaction called directly (its trigger sleeps on the wall clock); the mempool is emptied of one transaction with TxPool.CleanSubmittedTransactions of a one-transaction block"},
 	})
 }
 
@@ -686,6 +688,14 @@ func (cs *c05Case) describe() map[string]interface{} {
 }
 
 func runC05(c *kit.Ctx) {
+	if c.Shard >= c05BaseShards {
+		// part X: signature-exempt transaction types on live era nodes (c05_exempt.go)
+		if dn, err := os.OpenFile(os.DevNull, os.O_WRONLY, 0); err == nil {
+			os.Stdout = dn
+		}
+		runC05Exempt(c)
+		return
+	}
 	// the wallet / crypto packages print to stdout on some paths
 	if dn, err := os.OpenFile(os.DevNull, os.O_WRONLY, 0); err == nil {
 		os.Stdout = dn
